@@ -270,6 +270,9 @@ def run(prog, tier):
                 else:
                     res.undecided('zero-divisor', inst, f.loc(n['id']), 'no test of the divisor against zero is visible before the division [no proof found]', function=f.sig, expr='div:' + D[-60:])
     res.info['integer_divisions_on_load_path'] = ndiv
+    # ---- strings handed back by readString end at the first NUL: offsets / counts into them need a test of their size
+    import p_c13
+    p_c13.cstring_cut_rule(prog, res, rule='load-string-width')
     # ---- checked-read --------------------------------------------------------------------------------
     rf = prog.fn('ezc3d::c3d::readFile', nparams=4)
     reads = [c for c in rf.calls() if c['callee']['name'] == 'read' and c['callee'].get('classq', '').startswith('std::basic_istream')]
